@@ -112,6 +112,9 @@ func vfH_upgrade_logic() {
 	appExtErr := false
 	// two dimensions are varied, the others keep their valid defaults
 	d1 := vfChoose(12)
+	if f := vfParam("focus", -1); f >= 0 {
+		d1 = f
+	}
 	d2 := 12
 	if vfParam("tier", 0) >= 1 {
 		d2 = vfChoose(13)
@@ -453,4 +456,64 @@ func vfFindPrefix(lines []string, prefix string) string {
 		}
 	}
 	return ""
+}
+
+// vfH_server_boundary (C17.H1): frames the client sent before reading the 101
+// and that net/http had already buffered (first k bytes in the hijacked
+// bufio.Reader, the rest in the socket) are delivered as ordinary messages,
+// for hijacked reader sizes around the 256-byte reuse threshold and
+// ReadBufferSize 0 / small / large.
+func vfH_server_boundary() {
+	vfInit()
+	tier := vfParam("tier", 0)
+	gen := &vfGen{fromClient: true}
+	n1 := vfPick([]int{3, 130})
+	gen.message(TextMessage, vfBytes(n1), false, 0, []int{2, -1}, 0, PingMessage, vfBytes(1))
+	gen.message(BinaryMessage, vfBytes(4), false, 0, []int{-1}, -1, 0, nil)
+	T := len(gen.wire)
+	S := vfPick([]int{16, 256, 257, 4096})
+	rbs := vfPick([]int{0, 64, 300})
+	ks := []int{0, 1, 2}
+	for _, b := range gen.bounds {
+		ks = append(ks, b, b+1)
+	}
+	ks = append(ks, 15, 16, 17, 124, 125, 126, 127, T-1, T)
+	if tier >= 1 {
+		ks = nil
+		for i := 0; i <= T; i++ {
+			ks = append(ks, i)
+		}
+	}
+	k := vfPick(vfDedup(ks, T))
+	vfAssume(k <= S) // a bufio.Reader cannot hold more than its size
+	tc := vfNewConn(gen.wire)
+	if k > 0 {
+		tc.chunkMode = vfChunkScript
+		tc.script = []int{k}
+	}
+	if vfChoose(2) == 1 && k == 0 {
+		tc.chunkMode = vfChunkOne
+	}
+	br := bufio.NewReaderSize(tc, S)
+	if k > 0 {
+		br.Peek(1) // net/http read ahead: k bytes are now buffered
+		vfAssert(br.Buffered() == k, "boundary-setup")
+	}
+	rw := &vfRW{conn: tc, br: br, bw: bufio.NewWriterSize(tc, 4096)}
+	hdr := http.Header{"Connection": {"Upgrade"}, "Upgrade": {"websocket"}, "Sec-Websocket-Version": {"13"}, "Sec-Websocket-Key": {"dGhlIHNhbXBsZSBub25jZQ=="}}
+	r := &http.Request{Method: "GET", Host: "example.com", Header: hdr}
+	u := &Upgrader{ReadBufferSize: rbs}
+	c, err := u.Upgrade(rw, r, nil)
+	vfAssert(err == nil && c != nil, "c17-upgrade-succeeds")
+	pings := 0
+	c.SetPingHandler(func(string) error { pings++; return nil })
+	for _, m := range gen.msgs {
+		mt, p, rerr := c.ReadMessage()
+		vfAssert(rerr == nil && mt == m.mt, "c17-buffered-frames-delivered")
+		vfAssert(len(p) == len(m.data) && vfAllEq(p, m.data), "c17-buffered-frames-intact-and-in-order")
+	}
+	vfAssert(pings == 1, "c17-buffered-control-frame-delivered")
+	_, _, rerr := c.ReadMessage()
+	vfAssert(rerr != nil, "c17-nothing-duplicated")
+	vfReach("server-boundary-end")
 }
